@@ -4,7 +4,7 @@ From SV Require Import Lib.Base Gen.Consts.
 From SV Require Import Model.Seq32 Model.Assembler Model.TcpBuf Model.TcpTypes Model.Tcp.
 From SV Require Import Proofs.TcpSendBase Proofs.TcpSendInv Proofs.TcpSendAck Proofs.TcpSendProc.
 From SV Require Import Proofs.TcpSendApi Proofs.TcpSendDisp Proofs.TcpSendDisp2 Proofs.TcpSendDisp3.
-From SV Require Import Proofs.TcpSendTrace Proofs.TcpSendProps Proofs.TcpSendReply.
+From SV Require Import Proofs.TcpSendTrace Proofs.TcpSendProps Proofs.TcpSendReply Proofs.TcpSendKa.
 From SV Require Import Props.C05.
 
 Check (C05_invariant_initially : forall rxs txs cc ts s,
@@ -18,7 +18,7 @@ Check (C05_tx_invariant_preserved : forall cx g s ev s' out tags,
 Check (C05_process_preserves : forall cx g s ip r s' reply tags,
   inv g s -> ctx_ok cx -> repr_ok r ->
   tcp_process cx s ip r = Ok (s', reply, tags) ->
-  exists g', inv g' s' /\ ghost_rel g g' /\ learned s r s' /\ proc_ghost cx g s r g').
+  exists g', inv g' s' /\ ghost_rel g g' /\ learned s r s' /\ proc_ghost cx g s r g' s').
 
 Check (C05_send_appends : forall g s data s' n,
   inv g s -> tcp_send_slice s data = Ok (s', n) ->
@@ -90,6 +90,12 @@ Check (C05_fin_after_all_data : forall cx g s e s' tags p,
 
 Check (C05_fin_freezes_stream : forall g g', same_epoch g g' -> g_fin g = true ->
   g_fin g' = true /\ g_stream g' = g_stream g).
+
+Check (C05_keep_alive_below_una : forall cx g s e s' p tags,
+  inv g s -> ctx_ok cx -> 52 < cx_ip_mtu cx -> TcpLiveProofs.tcp_live_inv s ->
+  tcp_dispatch cx s e = Ok (s', DSent p, tags) ->
+  In 245 tags ->
+  g_phase g <> PSyn /\ exists u, 0 <= u < g_una g /\ r_seq_number (snd p) = sq (g_iss g + u)).
 
 Check (C05_syn_window_unscaled : forall cx g s e s' tags p,
   inv g s -> ctx_ok cx -> tcp_dispatch cx s e = Ok (s', DSent p, tags) -> ~ In 245 tags ->
